@@ -22,6 +22,8 @@ type Case struct {
 	Order   []int    `json:"order,omitempty"`  // explicit value ranks per level (thorough)
 	Stage   bool     `json:"stage,omitempty"`  // run as a pipeline stage
 	Nested  bool     `json:"nested,omitempty"` // the pipeline is itself a stage of an outer pipeline
+	Vals    int      `json:"vals,omitempty"`   // value shape: 0 plain, 1 the winning level's value is empty, 2 values contain '=' and a space, 3 every lower level's value is empty
+	Name2   string   `json:"name2,omitempty"`  // name of the second variable (default W)
 	SubDir  bool     `json:"subdir,omitempty"` // invoked from a sub-directory
 	Args    []string `json:"args,omitempty"`
 	Via     string   `json:"via,omitempty"`
@@ -30,7 +32,7 @@ type Case struct {
 }
 
 func (c Case) String() string {
-	return fmt.Sprintf("%s levels=%v desc=%v order=%v stage=%v nested=%v subdir=%v args=%q via=%q k=%d p=%d second=%v", c.Kind, c.Levels, c.Desc, c.Order, c.Stage, c.Nested, c.SubDir, c.Args, c.Via, c.K, c.P, c.Second)
+	return fmt.Sprintf("%s levels=%v desc=%v order=%v stage=%v nested=%v vals=%d name2=%q subdir=%v args=%q via=%q k=%d p=%d second=%v", c.Kind, c.Levels, c.Desc, c.Order, c.Stage, c.Nested, c.Vals, c.Name2, c.SubDir, c.Args, c.Via, c.K, c.P, c.Second)
 }
 
 func has(l []int, x int) bool {
@@ -60,7 +62,31 @@ func (c Case) val(l int, name string) string {
 	} else if c.Desc {
 		rank = 9 - l
 	}
-	return fmt.Sprintf("%c%s%d", 'a'+rune(rank), name, l)
+	base := fmt.Sprintf("%c%s%d", 'a'+rune(rank), name, l)
+	top := maxOf(c.Levels)
+	if name == "y" {
+		top = maxOf(c.Second)
+	}
+	switch c.Vals {
+	case 1:
+		if l == top {
+			return ""
+		}
+	case 2:
+		return base[:1] + "=" + base[1:] + " z"
+	case 3:
+		if l != top {
+			return ""
+		}
+	}
+	return base
+}
+
+func (c Case) n2() string {
+	if c.Name2 != "" {
+		return c.Name2
+	}
+	return "W"
 }
 
 type runResult struct {
@@ -117,10 +143,10 @@ func envCase(c Case, dir string) string {
 	vars := func(levels []int, l int, indent string, names ...string) string {
 		s := ""
 		if has(c.Levels, l) {
-			s += fmt.Sprintf("%sX: %s\n", indent, c.val(l, "x"))
+			s += fmt.Sprintf("%sX: %q\n", indent, c.val(l, "x"))
 		}
 		if has(c.Second, l) {
-			s += fmt.Sprintf("%sW: %s\n", indent, c.val(l, "y"))
+			s += fmt.Sprintf("%s%s: %q\n", indent, c.n2(), c.val(l, "y"))
 		}
 		return s
 	}
@@ -129,12 +155,15 @@ func envCase(c Case, dir string) string {
 		env = append(env, "X="+c.val(1, "x"))
 	}
 	if has(c.Second, 1) {
-		env = append(env, "W="+c.val(1, "y"))
+		env = append(env, c.n2()+"="+c.val(1, "y"))
 	}
 	if has(c.Levels, 2) || has(c.Second, 2) {
 		y.WriteString("contexts:\n  c1:\n    env:\n" + vars(c.Levels, 2, "      "))
 	}
-	y.WriteString("tasks:\n  t1:\n    before: 'echo \"HOOKB X=$X Y=$W P=$PASS TN=$TASK_NAME\"'\n    command:\n      - 'echo \"OBS X=$X Y=$W P=$PASS TN=$TASK_NAME\"'\n      - 'echo \"SECOND X=$X Y=$W P=$PASS TN=$TASK_NAME\"'\n    after: 'echo \"HOOKA X=$X Y=$W P=$PASS TN=$TASK_NAME\"'\n")
+	obs := func(tag string) string {
+		return fmt.Sprintf("'echo \"%s X=${X-unset} Y=${%s-unset} P=$PASS TN=$TASK_NAME\"'", tag, c.n2())
+	}
+	y.WriteString("tasks:\n  t1:\n    before: " + obs("HOOKB") + "\n    command:\n      - " + obs("OBS") + "\n      - " + obs("SECOND") + "\n    after: " + obs("HOOKA") + "\n")
 	if has(c.Levels, 2) || has(c.Second, 2) {
 		y.WriteString("    context: c1\n")
 	}
@@ -144,7 +173,7 @@ func envCase(c Case, dir string) string {
 			f += "X=" + c.val(3, "x") + "\n"
 		}
 		if has(c.Second, 3) {
-			f += "W=" + c.val(3, "y") + "\n"
+			f += c.n2() + "=" + c.val(3, "y") + "\n"
 		}
 		os.WriteFile(filepath.Join(dir, "t1.env"), []byte(f), 0o644)
 		y.WriteString("    env_file: t1.env\n")
@@ -156,14 +185,14 @@ func envCase(c Case, dir string) string {
 		y.WriteString("    variations:\n      - ")
 		first := true
 		if has(c.Levels, 6) {
-			y.WriteString("X: " + c.val(6, "x") + "\n")
+			y.WriteString(fmt.Sprintf("X: %q\n", c.val(6, "x")))
 			first = false
 		}
 		if has(c.Second, 6) {
 			if !first {
 				y.WriteString("        ")
 			}
-			y.WriteString("W: " + c.val(6, "y") + "\n")
+			y.WriteString(fmt.Sprintf("%s: %q\n", c.n2(), c.val(6, "y")))
 		}
 	}
 	target := "t1"
@@ -181,7 +210,7 @@ func envCase(c Case, dir string) string {
 		return "infra: " + err.Error()
 	}
 	wantX := c.val(maxOf(c.Levels), "x")
-	wantY := ""
+	wantY := "unset"
 	if len(c.Second) > 0 {
 		wantY = c.val(maxOf(c.Second), "y")
 	}
@@ -324,18 +353,18 @@ func varsCase(c Case, dir string) string {
 	// levels: 1 configuration variables, 2 --set, 3 task variables, 4 stage variables
 	var y strings.Builder
 	if has(c.Levels, 1) {
-		y.WriteString("variables:\n  v: " + c.val(1, "v") + "\n")
+		y.WriteString(fmt.Sprintf("variables:\n  v: %q\n", c.val(1, "v")))
 	}
 	y.WriteString("tasks:\n  t1:\n    before: 'echo \"HOOKB v={{.v}} root={{.Root}}\"'\n    command:\n      - 'echo \"OBS v={{.v}} root={{.Root}} tmp={{.TempDir}} args=[{{.Args}}] n={{len .ArgsList}}\"'\n      - 'echo \"SECOND v={{.v}}\"'\n    after: 'echo \"HOOKA v={{.v}} root={{.Root}}\"'\n")
 	if has(c.Levels, 3) {
-		y.WriteString("    variables:\n      v: " + c.val(3, "v") + "\n")
+		y.WriteString(fmt.Sprintf("    variables:\n      v: %q\n", c.val(3, "v")))
 	}
 	target := "t1"
 	if c.Stage {
 		target = "p1"
 		y.WriteString("pipelines:\n  p1:\n    - task: t1\n")
 		if has(c.Levels, 4) {
-			y.WriteString("      variables:\n        v: " + c.val(4, "v") + "\n")
+			y.WriteString(fmt.Sprintf("      variables:\n        v: %q\n", c.val(4, "v")))
 		}
 	}
 	target = nest(c, &y, target)
@@ -814,7 +843,7 @@ func main() {
 			return false
 		}
 		res.Evaluations++
-		distinct[fmt.Sprint(c.Kind, c.Levels, c.Stage, c.Nested, c.Args, c.K, c.P, c.SubDir, c.Via)] = true
+		distinct[fmt.Sprint(c.Kind, c.Levels, c.Stage, c.Nested, c.Vals, c.Name2, c.Args, c.K, c.P, c.SubDir, c.Via)] = true
 		if res.Evaluations%23 == 1 {
 			res.AddSample(c.String())
 		}
@@ -849,6 +878,26 @@ func main() {
 					}
 					if stage && do(Case{Kind: "env", Levels: s, Desc: desc, Stage: true, Nested: true}) {
 						goto done
+					}
+				}
+				// "regardless of the values involved": empty winning value, values with '=' and spaces, empty lower values
+				for vs := 1; vs <= 3; vs++ {
+					if do(Case{Kind: "env", Levels: s, Stage: stage, Vals: vs}) {
+						goto done
+					}
+				}
+				// a second variable on the complementary levels whose name is a case variant or an extension of the first
+				if stage {
+					var rest []int
+					for l := 1; l <= 6; l++ {
+						if !has(s, l) {
+							rest = append(rest, l)
+						}
+					}
+					for _, n2 := range []string{"x", "XX", "X_"} {
+						if len(rest) > 0 && do(Case{Kind: "env", Levels: s, Second: rest, Stage: true, Name2: n2}) {
+							goto done
+						}
 					}
 				}
 			}
@@ -925,6 +974,11 @@ func main() {
 						goto done
 					}
 					if stage && do(Case{Kind: "vars", Levels: s, Desc: desc, Stage: true, Nested: true}) {
+						goto done
+					}
+				}
+				for vs := 1; vs <= 3; vs++ { // empty winning value, values with '=' and a space, empty lower values
+					if do(Case{Kind: "vars", Levels: s, Stage: stage, Vals: vs}) {
 						goto done
 					}
 				}
